@@ -35,14 +35,15 @@ def render_method(m, fname):
     rec = "recurse" if m.get("rec", "recurse") == "recurse" else fname
     # every method is called `f`, as in real code (`@f.variant\ndef f(...)`): functions of a graph share their __name__
     head = f"def f(x: GA{k}):\n    _LOG.append({k})\n"
+    call = (lambda a: f"{rec}(*[{a}])") if m.get("dyn") else (lambda a: f"{rec}({a})")  # noqa: E731
     if m["kind"] == "leaf":
         return head + f"    return ('leaf', {k})\n"
     if m["kind"] == "walk_list":
-        return head + f"    return ['L', {k}] + [{rec}(a) for a in x]\n"
+        return head + f"    return ['L', {k}] + [{call('a')} for a in x]\n"
     if m["kind"] == "walk_tuple":
-        return head + f"    return ('T', {k}) + tuple({rec}(a) for a in x)\n"
+        return head + f"    return ('T', {k}) + tuple({call('a')} for a in x)\n"
     if m["kind"] == "walk_dict":
-        return head + f"    return dict({{kk: {rec}(v) for kk, v in x.items()}}, __m__={k})\n"
+        return head + f"    return dict({{kk: {call('v')} for kk, v in x.items()}}, __m__={k})\n"
     if m["kind"] == "next":
         return head + f"    return ('next', {k}, call_next(x))\n"
     raise ValueError(m["kind"])
